@@ -91,6 +91,18 @@ func inFragment(n ast.Node) bool {
 			return false // a + (b + c): recorded finding, excluded from the theorem's fragment (wf_ex)
 		}
 		return inFragment(v.Left) && inFragment(v.Right)
+	case *ast.CallExpression:
+		if v.Function == nil || v.Arguments == nil || !inFragment(v.Function) {
+			return false
+		}
+		for _, a := range v.Arguments {
+			if a == nil || !inFragment(a) {
+				return false
+			}
+		}
+		return true
+	case *ast.IndexExpression:
+		return v.Type() == token.LBRACKET && v.Left != nil && v.Index != nil && inFragment(v.Left) && inFragment(v.Index)
 	}
 	return false
 }
@@ -179,6 +191,17 @@ func fragExpr(r *Rng, d int) string {
 	}
 	if k < 4 {
 		return fragPre[r.Intn(len(fragPre))] + par(fragExpr(r, d-1), 60)
+	}
+	if k < 5 { // call: callee parenthesised at random, 0-3 arguments
+		n := r.Intn(4)
+		var as []string
+		for i := 0; i < n; i++ {
+			as = append(as, par(fragExpr(r, d-1), 20))
+		}
+		return par(fragExpr(r, d-1), 50) + "(" + strings.Join(as, []string{",", ", "}[r.Intn(2)]) + ")"
+	}
+	if k < 6 { // index
+		return par(fragExpr(r, d-1), 50) + "[" + par(fragExpr(r, d-1), 20) + "]"
 	}
 	sp := []string{" ", ""}[r.Intn(2)]
 	return par(fragExpr(r, d-1), 45) + sp + fragBin[r.Intn(len(fragBin))] + sp + par(fragExpr(r, d-1), 55)
@@ -367,7 +390,8 @@ func run(c *Ctx) {
 	}
 	// the fragment of the proved theorem: formatter output lexes to body(e) (both modes), and round-trips
 	for _, src := range []string{"a", "1", "-a", "-(-a)", "a+b", "a-(b-c)", "(a-b)-c", "a*(b+c)", "-(a+b)*c - d", "!(a&&b)||c", "a=b=c", "a=(b=c)",
-		"a+(b+c)", "(a+b)+c", "a:b", "++a", "a - -b", "a + ++b", "~(a|b)^c", "a<(b<c)", "0x1F+007", "a+(b*c)+d", "((a))", "-(1)", "a := b := 1", "a:=(b:=1)", `"s"+"t"`, "1.5*(a+2.)", "true&&!false", "-(1.5)", `a==("x"+b)`, "break", "!continue"} {
+		"a+(b+c)", "(a+b)+c", "a:b", "++a", "a - -b", "a + ++b", "~(a|b)^c", "a<(b<c)", "0x1F+007", "a+(b*c)+d", "((a))", "-(1)", "a := b := 1", "a:=(b:=1)", `"s"+"t"`, "1.5*(a+2.)", "f(a)", "f()", "f(a, b+c)(d)", "(a+b)(c)", "a[b]", "a[b][c]", "f(a)[b+c]", "(a+b)[c]", "-f(a)", "(-a)(b)", "f(g(a), h(b, c))*d",
+		"a[f(b)] + c[d]", "a [b]", "f (a)", "a[1:2]", "a[b:]", "true&&!false", "-(1.5)", `a==("x"+b)`, "break", "!continue"} {
 		fragCase(c, []byte(src))
 	}
 	nf := 2500
